@@ -29,7 +29,8 @@ RULE = ("one run = a drawn formula (flat builder / composed with sub-engines / 3
 QUICK_RUNS = 5000
 THOROUGH_RUNS = 300_000
 EXPECT_PROBES = ["staggered_start", "late_attach", "lag_ge_3", "forced_settle", "generated_formula_with_fallback",
-                 "fallback_formula_with_missing_primary", "missing_input_values"]
+                 "fallback_formula_with_missing_primary", "missing_input_values",
+                 "start_spread_beyond_capacity"]
 
 
 async def _run_once(sim: Sim, spec: dict[str, Any], lockstep: bool) -> list[tuple[int, Any]]:
@@ -113,7 +114,11 @@ async def _run_once(sim: Sim, spec: dict[str, Any], lockstep: bool) -> list[tupl
             """Upper bound of the unconsumed samples of stream i (in its leaf receiver or in any
             internal receiver downstream): before the first output nothing is assumed consumed
             (the initial synchronisation drains the lagging streams one group at a time); once an
-            output stamped T was observed every stream has been consumed up to T."""
+            output stamped T was observed every stream has been consumed up to T.
+            A flat formula has no internal receivers: there the leaf receiver's queue *is* the backlog, which
+            allows first timestamps further apart than one receiver capacity."""
+            if kind == "flat":
+                return len(rxs[i]._q)
             t_out = out[-1][0] if out else -1
             return nxt[i] - max(starts[i], t_out + 1)
 
@@ -194,6 +199,11 @@ def scenario(sim: Sim) -> None:
     # property's quantifier cannot be kept at all)
     spread = {50: [0, 0, 1, 2, 3, 5, 9, 20], 16: [0, 0, 1, 2, 3, 5, 8], 8: [0, 0, 1, 2]}[cap]
     starts = [0] * n if stag == 0 else [ch.choice("start", spread) for _ in range(n)]
+    if kind == "flat" and cap == 50 and n >= 2 and ch.chance("wide_start_spread", 0.15):
+        # first timestamps further apart than the receiver capacity (every backlog still stays within it)
+        starts = [0] * n
+        starts[ch.draw("late_stream", n)] = ch.choice("late_start", [55, 70, 95])
+        sim.probe("start_spread_beyond_capacity")
     if len(set(starts)) > 1:
         sim.probe("staggered_start")
     spec = dict(n=n, starts=starts, rounds=ch.int_between("rounds", 3, sim.scale(30, 45)), cap=cap,
